@@ -703,7 +703,7 @@ RW_DEP_KW = {'language': 'str', 'method': 'str', 'native': 'bool', 'not_found_me
 RW_PROJECT_KW = {'default_options': 'strlist', 'meson_version': 'str', 'license': 'strlist', 'license_files': 'strlist',
                  'subproject_dir': 'str', 'version': 'str'}
 RW_KW = {'target': RW_TARGET_KW, 'dependency': RW_DEP_KW, 'project': RW_PROJECT_KW}
-VALUE_STRINGS = ['/usr/local', 'lib64', '1.2.4', 'cmake', 'x y', "it's", 'back\\slash', 'ünï', '>=2.0', 'a#b', '$ORIGIN/../lib']
+VALUE_STRINGS = ['/usr/local', 'MixedCase/Lib', 'lib64', '1.2.4', 'cmake', 'x y', "it's", 'back\\slash', 'ünï', '>=2.0', 'a#b', '$ORIGIN/../lib']
 
 
 def _target_id(rng: random.Random, rec: M.CallRec) -> str:
